@@ -97,6 +97,18 @@ CLAIMED.update({
         note="Known finding R1 (direct passthrough skips close callbacks) is recorded. Response.freeze()/set_data() replacing the body are outside the property's stated domain and are not generated.",
         technique="deterministic simulation: application mutator histories x server abort-point sweep (crash points) with counting close spies and per-step monitors",
     ),
+    "C11": dict(
+        category="exploration",
+        text="'Origin and revalidating caches': a resource whose content, version, ETag (strong/weak/none) and Last-Modified (simulated clock with sub-second parts) change at simulated "
+        "times - including twice within one second - is served through the real make_conditional / _RangeWrapper / FileWrapper / get_wsgi_response; client actors remember validators from "
+        "earlier 200s and later send If-None-Match or If-Match lists, If-Modified-Since in three date formats, structurally generated Range headers and If-Range; the body is supplied as a "
+        "list, a generator with tape-chosen chunking incl. empty chunks, or a FileWrapper over a SimFile (seekable or not, short reads, varying block size); the server actor iterates fully "
+        "or aborts and closes. Every response is judged against a declarative reference evaluated on the current representation (sets of admissible outcomes where the property is silent). "
+        "send_file runs on a real temporary file whose mtime is set from the simulated clock, with a staleness check over the history.",
+        design_ref="3.8",
+        note="Requests carry either validators or a Range (the property does not define their combination). HEAD with Range, other range units, weak validators in If-Match / If-Range and inner whitespace are grey areas: both outcomes accepted.",
+        technique="deterministic simulation: write/revalidate histories on a simulated clock x body chunking / seekability / abort schedules, declarative reference oracle",
+    ),
 })
 
 NOT_APPLICABLE = {
